@@ -178,7 +178,7 @@ def sig(meta, v, tr):
 def run(ctx: Ctx):
     ctx.model_check("NetInfoMC", "MC_NetInfo", invariants=("Satisfiable", "LostKeysCaught", "LateCountersCaught", "StaleAddressCaught"), coverage=False, workers=4)
     rng = ctx.rng
-    n = 12 if ctx.quick else 300
+    n = 12 if ctx.quick else 2000
     cases = []
     for ver in range(4, 15):
         for k in range(n):
